@@ -14,10 +14,6 @@ Definition vtt_case (c : text * list Z * Z * list Z) : bool :=
   let '(content, oracle, code, calls) := c in
   (outcome_code (vtt_run (subs oracle) content) =? code) && text_eqb (bools_code (vtt_calls (subs oracle) content)) calls.
 
-Definition vtt_case_fixed (c : text * list Z * Z * list Z) : bool :=
-  let '(content, oracle, code, calls) := c in
-  (outcome_code (vtt_run_fixed (subs oracle) content) =? code) && text_eqb (bools_code (vtt_calls_fixed (subs oracle) content)) calls.
-
 Definition srt_event_of_code (c : Z) : srt_event :=
   if c =? 0 then EvStart None else if c =? 1 then EvStart (Some ColorAbsent) else if c =? 2 then EvStart (Some ColorNoValue)
   else if c =? 3 then EvStart (Some ColorBad) else if c =? 4 then EvStart (Some ColorGood) else if c =? 5 then EvEnd else EvData.
@@ -60,14 +56,14 @@ Definition stl_rows_of (l : list Z) : stl_rows :=
 Definition stl_case (c : list Z * list Z * list (Z * Z) * list Z * Z) : bool :=
   let '(st, rw, rle, oracle, code) := c in
   outcome_code (stl_run {| cfg_start := stl_start_of st; cfg_rows := stl_rows_of rw |} (subs oracle) (rle_expand rle)) =? code.
-(* internal outcome of the model not taken from the oracle => one of the four triggers fires (the partial theorem, evaluated) *)
+(* internal outcome of the model not taken from the oracle => one of the three triggers fires (the partial theorem, evaluated) *)
 Definition stl_trigger_case (c : list Z * list Z * list (Z * Z) * list Z * Z) : bool :=
   let '(st, rw, rle, oracle, code) := c in
   let cfg := {| cfg_start := stl_start_of st; cfg_rows := stl_rows_of rw |} in
   let file := rle_expand rle in
   let gsi := firstn 1024 file in
   implb ((20 <=? code) && negb (existsb (fun o => o =? code) oracle))
-        (trig_bad_tcp cfg gsi || trig_bad_mnr cfg gsi || trig_zero_count gsi || trig_cum_first cfg file).
+        (trig_zero_rows cfg gsi || trig_zero_count gsi || trig_cum_first cfg file).
 
 (* int(bytes([a, b])) for a whole row b = 0..255: -100000 encodes ValueError *)
 Definition bytes_int_row (a : Z) (row : list Z) : bool :=
